@@ -30,7 +30,8 @@ TRUSTED = ["Coq 8.16.1 kernel", "extraction (ExtrOcamlBasic only; Z/positive/nat
            "translator gen_consts.py + plugin gen/plugins/repack_tabs.py (keyword tables, parameter ranges, threshold, "
            "branch conditions of copy_sds/copy_gr, buffer constants and the statements of the strip-mining loop -> gen/Gen_Repack.v)",
            "OCaml driver extract/repack_main.ml; C harness harness/drive_repack.c (file generator and API-level content "
-           "dumper: SD, GR, V, VS, AN interfaces and Hfind/Hgetelement for palettes), harness/drive_repack_fn.c; generator, "
+           "dumper: SD, GR, V, VS, AN interfaces and Hfind/Hgetelement for palettes), harness/drive_repack_fn.c, "
+           "harness/drive_repack_strips.c (whole tool with SDreaddata interposed); generator, "
            "canonicalisation and comparison in checks/C18.py",
            "modelled, not verified: the copy loops of copy_sds/copy_gr/copy_vs/copy_an/vgroup_insert themselves "
            "(content preservation of the real code rests on the differential run), fscanf tokenisation of the option file, "
@@ -1029,6 +1030,7 @@ def run(ctx):
             stats["generator_errors"], len(cases), stats.get("generator_error_samples")))
     ctx.corr("hrepack~RepackSpec~RepackModel", **stats)
     fn_corr(ctx, T)
+    strips_corr(ctx, T)
     shutil.rmtree(T.wd, ignore_errors=True)
 
 
@@ -1142,6 +1144,55 @@ def fn_corr(ctx, T):
                "fnline " + g[0]]
         ctx.violation("correspondence parse/table/options_get_info ~ RepackModel broken: " + " ; ".join(
             "-%s '%s'" % o for o in g[1])[:200], "\n".join(txt), found=False, suffix="case")
+
+
+def strips_corr(ctx, T):
+    """R-vs-M for the data movement of copy_sds: the whole tool compiled into harness/drive_repack_strips.c with
+    SDreaddata interposed logs every block hrepack reads; the extracted model (strip_mined, strips, one_piece with the
+    regenerated statements and the real H4TOOLS_BUFSIZE) must list exactly the same blocks in the same order"""
+    r = ctx.rng
+    exe = ctx.harness("drive_repack_strips", ["drive_repack_strips.c"], wraps=["SDreaddata"])
+    B, M = tool_buffer_bytes()
+    q = max(B // 1048576, 1)
+    shapes = [(21, [3, B + 5]), (22, [3, B // 2 + B // 8]), (24, [3, 300 * q, B // 4096 + 744]), (21, [M // 256 + 1, 256]),
+              (23, [2, 3, 200 * q, B // 2048 + 488]), (21, [5, 7, 100 * q, B // 4096 + 44]), (6, [2, 400 * q, B // 8192 + 72]),
+              (21, [M // 1024, 1024]), (21, [M // 1024 - 1, 1024]), (24, [7, 9]), (5, [2, 3, 4])]
+    n = 4 if ctx.tier == "quick" else 11
+    picks = r.sample(shapes[:9], n - 1 if n < 11 else 9) + shapes[9:]
+    d = os.path.join(T.wd, "strips")
+    os.makedirs(d, exist_ok=True)
+    script, mlines = [], []
+    for k, (nt, dims) in enumerate(picks):
+        name = "w%d" % k
+        script.append("sds %s %d 0 %d %s seed=%d pat=0 write=all" % (hx(name), nt, len(dims), " ".join(map(str, dims)), k + 1))
+        mlines.append("%s %d %d 0 0 %s" % (hx(name), NTSIZE[nt], B, " ".join(map(str, dims))))
+    open(os.path.join(d, "in.scr"), "w").write("\n".join(script) + "\n")
+    rc, o = vc.sh([T.drv, "gen", os.path.join(d, "in.scr"), os.path.join(d, "in.hdf")], timeout=300, env=vc.HARNESS_ENV)
+    if rc != 0:
+        raise vc.BuildError("strips_corr: cannot build the input file: " + o[-200:])
+    rc, out = vc.sh([exe, os.path.join(d, "in.hdf"), os.path.join(d, "out.hdf")], timeout=600, env=vc.HARNESS_ENV)
+    R = [l for l in out.splitlines() if l.startswith("B ")]
+    open(os.path.join(d, "m.in"), "w").write("\n".join(mlines) + "\n")
+    rcm, mo = vc.run_lines(T.model, os.path.join(d, "m.in"), timeout=300, args=["strips"])
+    Mb = [l for l in mo if l.startswith("B ")]
+    # hrepack reads the datasets in file order; compare per dataset
+    byname = lambda L: {n: [l for l in L if l.split()[1] == n] for n in dict.fromkeys(l.split()[1] for l in L)}
+    Rn, Mn = byname(R), byname(Mb)
+    stats = {"datasets": len(picks), "blocks_library": len(R), "blocks_model": len(Mb), "harness_rc": rc,
+             "strip_mined_datasets": sum(1 for v in Mn.values() if len(v) > 1), "buffer_bytes": B}
+    ctx.corr("copy_sds data movement~RepackModel strips (SDreaddata interposed)", **stats)
+    for n_ in Mn:
+        ctx.case(("strips", tuple(Mn[n_][:3])), len(Mn[n_]) > 1)
+    if rc != 0 or rcm != 0 or Rn != Mn:
+        bad = next((n_ for n_ in Mn if Rn.get(n_) != Mn[n_]), None)
+        a, b = Rn.get(bad, []), Mn.get(bad, [])
+        k = vc.first_diff(a, b)
+        txt = ["# C18: blocks read by copy_sds (R, SDreaddata interposed) differ from the model's strips (M)",
+               "# dataset: " + (bad or "?"), "#   R: " + (a[k] if k is not None and k < len(a) else "<none> (rc=%d)" % rc),
+               "#   M: " + (b[k] if k is not None and k < len(b) else "<none>")] + ["stripline " + l for l in mlines]
+        ctx.violation("correspondence copy_sds data movement ~ strips broken for dataset %s" % bad, "\n".join(txt),
+                      found=False, suffix="case")
+    shutil.rmtree(d, ignore_errors=True)
 
 
 def replay(ctx, path):
